@@ -379,6 +379,15 @@ Proof.
 Qed.
 End Evaluate.
 
+(* the hypotheses of hier_evaluate_kwargs are satisfiable (an alignment that changes nothing, one level, one segment) *)
+Example hier_evaluate_kwargs_ex :
+  let align := fun (H : Hierarchy.hier) (L : list (list str)) (_ : Q) (_ : option Q) => Ok (H, L) in
+  let LR : Hierarchy.lhier := [[((0, 1), [97%nat])]] in
+  Hierarchy.hier_bounds (Hierarchy.lh_intervals LR) = Ok (0, 1) /\
+  align (Hierarchy.lh_intervals LR) (lh_labels LR) 0 None = Ok (Hierarchy.lh_intervals LR, lh_labels LR) /\
+  align (Hierarchy.lh_intervals LR) (lh_labels LR) 0 (Some 1) = Ok (Hierarchy.lh_intervals LR, lh_labels LR).
+Proof. cbv zeta. repeat split; reflexivity. Qed.
+
 Print Assumptions callee_sigs3_expected.
 Print Assumptions hier_tmeasure_tie.
 Print Assumptions hier_lmeasure_tie.
